@@ -106,11 +106,20 @@ def gen_port_entry(rnd, socks=False):
     return "unix:/run/tor/%s.sock" % rnd.choice(["socks", "s0", "ctl-1"])
 
 
+# comma-list entries with blanks / a tab INSIDE the entry (Tor's CSV types split on commas only)
+BLANK_CSV = {"RouterList": ["My Relay", "node one two", "$BBBBBBBBBBBBBBBBBBBBBBBBBBBBBBBBBBBBBBBB~two words"],
+             "TimeIntervalCommaList": ["30 minutes", "2 hours", "1 day", "90\tseconds"],
+             "CommaList": ["accept 80", "v3 bridge", "1 2 3", "x\ty"]}
+
+
 def gen_csv(rnd, typ, n=None):
     pool = NICKS if typ == "RouterList" else (INTERVALS_CSV if typ == "TimeIntervalCommaList" else PORTS_CSV)
     if n is None:
         n = rnd.choice([1, 2, 3, 4])
-    return rnd.sample(pool, min(n, len(pool)))
+    out = rnd.sample(pool, min(n, len(pool)))
+    if out and rnd.random() < 0.3:
+        out[rnd.randrange(len(out))] = rnd.choice([x for x in BLANK_CSV[typ] if x not in out])
+    return out
 
 
 def gen_scalar_raw(rnd, typ):
@@ -150,7 +159,7 @@ def gen_values(rnd, typ, shape):
         if shape in ("unset", "empty"):
             return []                              # Tor answers "Key=" for an empty CSV option
         items = gen_csv(rnd, typ, 1 if shape == "single" else rnd.choice([2, 3, 4]))
-        sep = rnd.choice([",", ",", ", "])
+        sep = rnd.choice([",", ",", ", ", " , ", ",  "])
         return [sep.join(items)]
     n = 0 if shape in ("unset", "empty") else (1 if shape == "single" else rnd.choice([2, 2, 3, 4, 5]))
     out = []
